@@ -300,6 +300,8 @@ class Engine:
         self.dropped = set()
         self.on_path_start = None
         self.cur_func = None
+        self.feas_timeout_ms = int(os.environ.get('PYVC_FEAS_TIMEOUT_MS', '2000'))
+        self.mbqi_retry = False
 
     # ---------------------------------------------------------- path management
     def run_paths(self, body):
@@ -389,10 +391,12 @@ class Engine:
             for a in _v.hierarchy_axioms():
                 self.assume(a)
 
-    def check(self, f):
+    def check(self, f, timeout_ms=None):
         """sat / unsat / unknown of pc /\\ f."""
         t0 = time.time()
+        self.path.solver.set('timeout', timeout_ms or self.feas_timeout_ms)
         r = self.path.solver.check(f)
+        self.path.solver.set('timeout', Z3_TIMEOUT_MS)
         self.report.solver_time += time.time() - t0
         return r
 
@@ -475,7 +479,25 @@ class Engine:
             except Exception:
                 model = {}
             return 'sat', 'z3', model
-        # unknown: second opinion from cvc5 on the same query
+        # unknown: retry with model-based quantifier instantiation (finds counter-models of quantified
+        # contexts that E-matching alone cannot decide), then a second opinion from cvc5
+        if self.mbqi_retry:
+            s3 = z3.Solver()
+            s3.set('timeout', Z3_TIMEOUT_MS)
+            s3.set('smt.mbqi', True)
+            for a in self.path.pc:
+                s3.add(a)
+            s3.add(neg)
+            r3 = s3.check()
+            if r3 == z3.unsat:
+                return 'unsat', 'z3-mbqi', None
+            if r3 == z3.sat:
+                try:
+                    m = s3.model()
+                    model = {str(d): str(m[d])[:300] for d in m.decls()[:80]}
+                except Exception:
+                    model = {}
+                return 'sat', 'z3-mbqi', model
         r2 = self._cvc5(neg)
         if r2 == 'unsat':
             return 'unsat', 'cvc5', None
@@ -506,7 +528,7 @@ class Engine:
 
     def cover(self, name):
         """Vacuity guard: record that this program point is reachable with a satisfiable pc."""
-        ok = self.check(z3.BoolVal(True)) == z3.sat
+        ok = self.check(z3.BoolVal(True)) != z3.unsat
         for i, (n, r) in enumerate(self.report.covers):
             if n == name:
                 self.report.covers[i] = (n, r or ok)
@@ -516,7 +538,7 @@ class Engine:
     def canary(self, name):
         """`False` must NOT be provable here; if it is, assumptions are contradictory."""
         r = self.check(z3.BoolVal(True))
-        ok = (r == z3.sat)
+        ok = (r != z3.unsat)      # `unknown` (quantified context): not known to be contradictory
         for i, (n, o) in enumerate(self.report.canaries):
             if n == name:
                 self.report.canaries[i] = (n, o or ok)
@@ -656,6 +678,11 @@ class Engine:
             return a.t == b.t     # abstract identities (Loop, Ev, Fut, ...) ARE identities
         if isinstance(a, VBool) and isinstance(b, VBool):
             return a.t == b.t
+        if isinstance(a, Obj) and isinstance(b, Obj) and 'ident' in a.fields and 'ident' in b.fields:
+            ia, ib = a.fields['ident'], b.fields['ident']
+            if ia.sort() != ib.sort():
+                return False
+            return True if z3.eq(ia, ib) else ia == ib
         if isinstance(a, (Obj, VList, VFunc, VClass, VStub, VBound, VPartial, VNamespace, VCoro)) or \
                 isinstance(b, (Obj, VList, VFunc, VClass, VStub, VBound, VPartial, VNamespace, VCoro)):
             if isinstance(a, VBound) and isinstance(b, VBound):
@@ -1173,7 +1200,9 @@ class Engine:
             else:
                 self.throw('TypeError')
         extra = args[len(pos):]
-        if a.vararg is not None:
+        if a.vararg is not None and len(extra) == 1 and type(extra[0]).__name__ == 'VStar':
+            fr.env[a.vararg.arg] = VSeq(extra[0].seq, VVal)      # abstract positional tuple
+        elif a.vararg is not None:
             fr.env[a.vararg.arg] = VTuple(extra)
         elif extra:
             self.throw('TypeError')
